@@ -10,7 +10,7 @@ from lib import emitcheck as E
 
 ID = 'C11'
 IMPORTS = E.IMPORTS
-THEOREMS = ['C11_compile_body_total', 'C11_compile_program_total', 'C11_compile_text_cases', 'C11_emit_defs_exact', 'C11_head_keys_spec', 'C11_def_name_determines_key', 'C11_function_frame', 'C11_toplevel_defs', 'C11_text_lines', 'C11_emit_lexemes_valid', 'C11_prefixed_variable_not_reserved', 'C11_too_large_reported', 'C11_accepted_within_limits']
+THEOREMS = ['C11_compile_body_total', 'C11_compile_program_total', 'C11_compile_text_cases', 'C11_emit_defs_exact', 'C11_head_keys_spec', 'C11_def_name_determines_key', 'C11_function_frame', 'C11_toplevel_defs', 'C11_text_lines', 'C11_front_lexical', 'C11_text_lines_exact', 'C11_emit_lexemes_valid', 'C11_prefixed_variable_not_reserved', 'C11_too_large_reported', 'C11_accepted_within_limits']
 RULE = ('random programs (2-5 predicates + leaf fact predicates + list-recursion templates; heads with repeated, nested and anonymous '
         'variables; bodies over calls, =, \\=, true, fail, cut, ;, ->, \\+, call/once/findall; quoted atoms with quotes, line breaks, '
         'control and non-ASCII characters) printed to Prolog text; boundary forms: numeral spellings, variable names that are Python '
